@@ -284,6 +284,32 @@ def st_case(draw):
                              'shard', 'tile'}
     if draw(st.integers(0, 3)) == 0:
         allowed = allowed | {'reshuffle', 'sort', 'shuffle_once', 'shard', 'tile', 'filter_eager'}
+    if draw(st.integers(0, 5)) == 0:
+        # a failing stage below a stage that is told what to catch (the profiler works on a COPY of the pipeline:
+        # the copy has to catch what the original catches)
+        ctx = gen.Ctx()
+        node = draw(gen.st_source(ctx, min_n=2))
+        mm = draw(st.integers(2, 3))
+        exc = draw(st.sampled_from(['VErrA', 'FilterException', 'VErrC']))
+        node = {'op': 'boom', 'm': mm, 'r': draw(st.integers(0, mm - 1)), 'exc': exc, 'fn': draw(st.integers(0, 3)),
+                'in': node}
+        spec = draw(st.sampled_from([True, 'VErrA', ['VErrA', 'VErrC'], 'VErrC']))
+        if draw(st.booleans()):
+            w = draw(st.integers(1, 2))
+            node = {'op': 'prefetch', 'workers': w, 'buffer': draw(st.integers(w, 3)), 'catch': spec, 'in': node}
+        else:
+            node = {'op': 'catch', 'exc': None if spec is True else spec, 'in': node}
+        if draw(st.booleans()):
+            node = {'op': 'map', 'fn': draw(st.integers(0, 3)), 'in': node}
+        try:
+            ev(node)
+        except Invalid:
+            node = node['in'] if node['op'] == 'map' else node
+            try:
+                ev(node)
+            except Invalid:
+                node = draw(gen.st_source(ctx))
+        return {'ast': node, 'mode': 'full'}
     if draw(st.integers(0, 4)) == 0:
         # a per-epoch reshuffle below a stage that freezes its input per iteration (catch, multi-worker prefetch)
         ctx = gen.Ctx()
